@@ -413,6 +413,9 @@ def run(ctx):
     c08.rule_level_flow(ctx)
     from . import c11
     c11.rule_nested_fresh(ctx, "reply-shape")      # the ListOffsets v0 builder assembles (partition, timestamp, 1) lists per topic
+    from .common import rule_iterator_reraises, rule_isolation_mapping
+    rule_iterator_reraises(ctx, "policy")
+    rule_isolation_mapping(ctx, "level-flow")
     from .common import rule_instance_state
     rule_instance_state(ctx, ("aiokafka.consumer.",))
     rep.nd("that the offsets the broker reports are what is finally consumed")
